@@ -79,7 +79,7 @@ let naddr_of_string s =
   | ["U"; ip; port; zone; str] -> Some (NUdp (bytes_of_hex ip, z_of_int (int_of_string port), bytes_of_hex zone, bytes_of_hex str))
   | _ -> failwith ("bad address " ^ s)
 
-type pending = NoOp | PPkt of int * bool * z list | PAcc | PClose of int | PLClose
+type pending = NoOp | PPkt of int * bool * z list | PAcc | PClose of int | PCloseB of int | PCloseE of int | PLClose
 
 let () =
   let ic = open_in Sys.argv.(1) in
@@ -112,6 +112,8 @@ let () =
        | "P" :: a :: ok :: hex :: _ -> pend := PPkt (int_of_string a, ok = "1", bytes_of_hex hex)
        | "A" :: _ -> pend := PAcc
        | "X" :: id :: _ -> pend := PClose (int_of_string id)
+       | "XB" :: id :: _ -> pend := PCloseB (int_of_string id)
+       | "XE" :: id :: _ -> pend := PCloseE (int_of_string id)
        | "L" :: _ -> pend := PLClose
        | "R" :: rest when not !bad ->
            incr steps; incr stepno;
@@ -147,6 +149,8 @@ let () =
                 let m = match r with Some (a, i) -> Printf.sprintf "%d:%d" a (int_of_z i) | None -> "-" in
                 if m <> fld rest "acc" then report "accept" (fld rest "acc") m
             | PClose id -> l := l_close_session ieq before (z_of_int id)
+            | PCloseB id -> l := l_close_begin ieq before (z_of_int id)
+            | PCloseE id -> l := l_close_end ieq before (z_of_int id)
             | PLClose -> l := l_close before
             | NoOp -> ());
            pend := NoOp;
@@ -167,7 +171,8 @@ let () =
                 end;
                 let sns = fld rest "sns" in
                 let have = if sns = "-" then [] else List.map int_of_string (split ',' sns) in
-                List.iter (fun sn -> if sn < 32 && not (List.mem sn have) then
+                let nxt = int_of_string (fld rest "nxt") in
+                List.iter (fun sn -> if sn >= nxt && sn < nxt + 32 && not (List.mem sn have) then
                                        report (Printf.sprintf "segment-held(session %d)" id) sns (string_of_int sn))
                   (direct_sns conv e.e_sess.r_log)
             | _ -> report "session-live" (string_of_int id) "absent")
